@@ -196,6 +196,28 @@ fn nary<C: Combo>(sink: &mut Sink, rng: &mut Rng, thorough: bool) {
 }
 
 pub fn run(sink: &mut Sink, rng: &mut Rng, thorough: bool) {
+  // builders over an EMPTY list of regions: every variant gives the empty MOC of the REQUESTED depth
+  // (no geometry involved: nothing is pushed)
+  {
+    use moc::moc::range::CellSelection;
+    use moc::qty::Hpx;
+    for depth in [0u8, 1, 10, 29] {
+      let variants: Vec<(&str, RangeMOC<u64, Hpx<u64>>)> = vec![
+        ("from_large_cones", RangeMOC::<u64, Hpx<u64>>::from_large_cones(depth, 2, CellSelection::All, std::iter::empty())),
+        ("from_small_cones", RangeMOC::<u64, Hpx<u64>>::from_small_cones(depth, 2, std::iter::empty(), None)),
+        ("from_large_boxes", RangeMOC::<u64, Hpx<u64>>::from_large_boxes(depth, CellSelection::All, std::iter::empty())),
+        ("from_small_boxes", RangeMOC::<u64, Hpx<u64>>::from_small_boxes(depth, std::iter::empty(), None)),
+        ("from_fixed_depth_cells", RangeMOC::<u64, Hpx<u64>>::from_fixed_depth_cells(depth, std::iter::empty(), None)),
+      ];
+      for (name, m) in variants {
+        sink.count("builder-empty-list");
+        if m.depth_max() != depth || !m.is_empty() {
+          sink.impl_failures.push(format!("builder-empty-list: {}({}, no region) -> {}", name, depth, describe_moc(&m)));
+        }
+      }
+    }
+  }
+
   for_all_combos!(builders, sink, rng, thorough);
   for_all_combos!(nary, sink, rng, thorough);
 }
